@@ -242,6 +242,16 @@ def kani_base(feat, slot):
     ]
 
 
+def point_harness_at_repo():
+    """Background runs may use a snapshot of /repo (AVRA_REPO=$VP_RUN_REPO): the path dependency
+    of the harness crate is then rewritten in *this* working copy of /verif."""
+    ct = os.path.join(HARNESS, "Cargo.toml")
+    txt = open(ct).read()
+    new = re.sub(r'avra-rs = \{ path = "[^"]*" \}', 'avra-rs = { path = "%s" }' % REPO, txt)
+    if new != txt:
+        open(ct, "w").write(new)
+
+
 def prepare_slots(n):
     """Every worker slot owns a cargo target dir (Kani compiles the harness crate once per
     harness filter, and cargo serialises builds that share a target dir).  Slot 0 is built
@@ -314,7 +324,7 @@ def mangled_names(symtab, wanted):
 # running one harness and parsing CBMC's verdict
 
 CHECK_RE = re.compile(
-    r"^Check (\d+): (\S+)\n\s+- Status: (\w+)\n\s+- Description: \"(.*?)\"\n(?:\s+- Location: (.*)\n)?", re.M
+    r"^Check (\d+): (.+)\n\s+- Status: (\w+)\n\s+- Description: \"(.*?)\"\n(?:\s+- Location: (.*)\n)?", re.M
 )
 
 
@@ -435,10 +445,10 @@ def run_harness_in(h, tier, want_playback, slot):
         # vacuity guard: no reachable witness may be unsatisfiable, and at least one of the
         # mandatory ("!") witnesses of the harness must be SATISFIED (witnesses sitting in
         # branches that are dead for this instantiation come back UNREACHABLE and are ignored)
-        bad_cov = [c for c in p["covers"] if c["status"] == "UNSATISFIABLE"]
         must = [c for c in p["covers"] if c["desc"].startswith("!")]
+        bad_cov = [c for c in must if c["status"] == "UNSATISFIABLE"]
         sat_must = [c for c in must if c["status"] == "SATISFIED"]
-        if bad_cov or (p["covers"] and not sat_must and h["mode"] != "oracle"):
+        if bad_cov or (p["covers"] and not sat_must):
             r["outcome"] = "vacuous"
             r["detail"] = "reachability witnesses not satisfied: %s" % (sorted(set(c["desc"] for c in bad_cov)) or "no mandatory witness satisfied")
         else:
@@ -555,6 +565,7 @@ def check(prop, tier, only=None):
             log("SOURCE-SCAN-ERROR: " + p)
         return 2
     write_excl(set())
+    point_harness_at_repo()
     ok, secs, logf = build_native()
     log("  built native replay binaries in %.0fs: %s" % (secs, "ok" if ok else "FAILED"))
     if not ok:
@@ -621,10 +632,10 @@ def check(prop, tier, only=None):
             rep = None
             for kind, desc, vals in tests:
                 rep = native_replay(h["name"], vals, "debug")
-                if rep["rc"] in (10, 11):
+                if rep["rc"] in (10, 11) or rep["rc"] < 0:
                     break
             rep_rel = native_replay(h["name"], vals, "release")
-            reproduced = rep["rc"] in (10, 11)
+            reproduced = rep["rc"] in (10, 11) or rep["rc"] < 0 or rep["rc"] in (134, 139)
             log("    %s native replay: debug exit=%s release exit=%s api=%s roles=%s" % (h["name"], rep["rc"], rep_rel["rc"], rep["api"], rep["roles"]))
             if not reproduced:
                 inconclusive.append((h["name"], "counterexample did not reproduce natively (exit %s): encoding or stub wrong" % rep["rc"]))
